@@ -39,6 +39,7 @@ def run(ctx):
     rbe_check(ctx, 'R13.4', impls[0], [], '', floor=None)
     for c in impls:
         rbe_check(ctx, 'R13.4', c, ['update_seed'], 'refused seed update has already changed the stream')
+    r137_live_table(ctx, impls)
     from ..statrules import shared_class_state
     shared_class_state(ctx, 'R13.6', sorted(c for c, ci in prog.classes.items() if ci.module.name == 'streams'),
                        'the seed a stream receives depends on what other experiments / updaters in the same process configured, not only on its name, '
@@ -256,3 +257,41 @@ def driver(ctx):
         if not ok:
             ctx.finding('R13.3', f'{c}.update_seeds', ci, fn, f'update_seeds {why}: the seeds (or the order in which a stateful fallback sees the streams) can depend on hash order / listing order',
                         where=f'{c}.update_seeds')
+
+
+def r137_live_table(ctx, impls):
+    """the table of configured seed lists an updater consults is the object it was constructed with -- not a copy taken at construction:
+    a list configured (or replaced) afterwards through the information object must be the one the stream's seed depends on"""
+    prog = ctx.prog
+    ctx.rule('R13.7', 'the seed table consulted by update_seed is the constructor argument itself (no snapshot): lists configured after construction are seen')
+    n = 0
+    for c in impls:
+        ci = prog.cls(c)
+        us = prog.method(c, 'update_seed', inherited=False)
+        init = ci.methods.get('__init__')
+        if us is None or init is None:
+            continue
+        fields = {x.attr for x in walk_shallow(us) if is_self_attr(x) and isinstance(x.ctx, ast.Load)}
+        params = [a.arg for a in init.args.args[1:]]
+        for f in sorted(fields):
+            stores = [a for a in walk_shallow(init) if isinstance(a, (ast.Assign, ast.AnnAssign)) and getattr(a, 'value', None) is not None
+                      and any(is_self_attr(t, f) for t in (a.targets if isinstance(a, ast.Assign) else [a.target]))]
+            if not stores:
+                continue
+            # only container-valued configuration (a table): a parameter whose items are read in update_seed
+            table = any(isinstance(x, (ast.Subscript, ast.Compare)) and any(is_self_attr(y, f) for y in ast.walk(x)) for x in walk_shallow(us))
+            if not table:
+                continue
+            n += 1
+            ok = len(stores) == 1 and isinstance(stores[0].value, ast.Name) and stores[0].value.id in params
+            # ... and the parameter is not re-bound before the store
+            if ok:
+                p_ = stores[0].value.id
+                ok = not any(isinstance(x, ast.Name) and x.id == p_ and isinstance(x.ctx, ast.Store) for x in walk_shallow(init))
+            ctx.ob('R13.7', f'{c}.__init__:{f}', ok, sample=f'{c}.__init__: self.{f} = {short(stores[0].value)}')
+            if not ok:
+                ctx.finding('R13.7', f'{c}.__init__:{f}:snapshot', ci, stores[0],
+                            f'`{short(stores[0], 60)}`: the updater keeps its own copy of the seed table instead of the object it was given: a seed list configured or replaced '
+                            f'afterwards is ignored (the stream gets the fallback / stale seed, replication numbers are checked against the old list), so the seed no longer '
+                            f'depends only on the configured list', where=f'{c}.__init__')
+    ctx.floor('R13.7', 'seed tables kept by updaters', n, 1)
